@@ -27,7 +27,10 @@ PROPERTY = "C18"
 RULE = ("pair (database, single edit) serialised to ODX XML twice and loaded separately; generated "
         "databases by Hypothesis, every expressible single edit of examples/somersault.pdx by enumeration; "
         "non-trivial = the edit is not the identity and the layer owning the edited service has >=2 "
-        "services; distinct = digest of (description, edit)")
+        "services; distinct = digest of (description, edit).  Layer-overview cases: generated databases with 2..6 "
+        "layers of all kinds whose numbers of services / DOPs / comparam refs are independently zero or not, "
+        "printed in several orders (all, reversed, permuted subsets) through print_dl_metrics and `list`; "
+        "non-trivial = at least two layers")
 ASSUMPTIONS = [
     "inside one layer all services have distinct constant request prefixes before and after the edit (the tool identifies services by short name and by this prefix); generated edits that would make two prefixes equal are not generated",
     "byte-position edits change the effective layout (making an explicit position implicit without moving the parameter is not generated); parameters never overlap",
@@ -36,10 +39,15 @@ ASSUMPTIONS = [
     "the printed report is observed through the rich Table objects handed to rich_print; a reported service must appear in the first column of some table printed for its layer",
     "a changed attribute must show up as one detail row whose old/new cells equal the old/new value of the edit (hexadecimal strings are read as integers); the wording of labels is not asserted",
     "find and decode tools are not covered (the statement only speaks about comparison and the layer overview)",
+    "layer-overview cases: layers of all five kinds with at most one parent (kinds as ODX allows), unique short names, an ECU-SHARED-DATA has no communication parameters; each row must show the model's counts for that layer whatever rows precede it; in the per-layer listing of `odxtools list` everything printed after a layer was named and before the next one is named must be exactly the services / DOPs / communication parameters applicable to that layer (recognised by their generated short names, wording not asserted)",
 ]
 MUST_HIT = ["edit:identity", "edit:add", "edit:delete", "edit:rename", "edit:byte_position", "edit:bit_length",
             "edit:coded_value", "edit:semantic", "edit:data_type", "edit:linked_dop", "edit:dop_modified",
-            "dop-modified-used", "dop-modified-physical-type",
+            "dop-modified-used", "dop-modified-physical-type", "src:metrics",
+            "metrics:zero-after-nonzero:services", "metrics:zero-after-nonzero:dops", "metrics:zero-after-nonzero:comparams",
+            "metrics:nonzero-after-zero:services", "metrics:nonzero-after-zero:dops", "metrics:nonzero-after-zero:comparams",
+            "metrics:order:reversed", "metrics:order:subset", "metrics:order:permuted", "metrics:via:list", "metrics:via:compare",
+            "kind:PROTOCOL", "kind:FUNCTIONAL-GROUP", "kind:ECU-SHARED-DATA", "kind:BASE-VARIANT", "kind:ECU-VARIANT",
             "role:request", "role:pos", "role:neg", "param:CC", "param:VAL",
             "shared-first-byte", "inherited-layer-affected", "src:gen", "src:somersault", "comparams>0",
             "variant-vs-variant"]
@@ -78,9 +86,16 @@ class _Patched:
         import odxtools.cli.compare as C
         self.mods = [(C, "rich_print"), (PU, "rich_print"), (rich, "print")]
         self.saved = [getattr(m, a) for m, a in self.mods]
-        self.rec = {"compare": [], "utils": [], "rich": []}
+        self.rec = {"compare": [], "utils": [], "rich": [], "all": []}
+
+        def recorder(k):
+            def rec(*args, **kw):
+                self.rec[k].append(args)
+                self.rec["all"].append(args)     # everything in the order it was printed
+            return rec
+
         for (m, a), key in zip(self.mods, ("compare", "utils", "rich")):
-            setattr(m, a, (lambda k: (lambda *args, **kw: self.rec[k].append(args)))(key))
+            setattr(m, a, recorder(key))
         return self
 
     def __exit__(self, *exc):
@@ -490,7 +505,118 @@ def evaluate(case):
     return fails, pl.classes, pl.nontrivial
 
 
+# ---------------------------------------------------------------------------
+# layer overview over several layers of all kinds in several orders
+# ---------------------------------------------------------------------------
+def evaluate_metrics(case):
+    """case = {"src": "metrics", "mdesc": ..., "orders": [[layer index, ...], ...]}: the overview (and the
+    per-layer listing of `odxtools list`) is printed for the layers in each of the given orders; every row /
+    block must show what the model computes for that layer, whatever was printed before it"""
+    md, orders = case["mdesc"], case["orders"]
+    if not M.m_well_formed(md) or any(len(set(o)) != len(o) or not o for o in orders):
+        raise ValueError("case outside the envelope")
+    names = [l["name"] for l in md["layers"]]
+    eff = {l["name"]: M.m_names(md, i) for i, l in enumerate(md["layers"])}
+    counts = {n: {k: len(v) for k, v in e.items()} for n, e in eff.items()}
+    classes = {"src:metrics", f"layers:{len(names)}"} | {f"kind:{l['kind']}" for l in md["layers"]}
+    fails = []
+    emitted = set()
+
+    def fail(clause, detail, **feat):
+        feat.setdefault("bucket", clause)
+        if feat["bucket"] in emitted:
+            return
+        emitted.add(feat["bucket"])
+        feat["src"] = "metrics"
+        fails.append(core.Failure(clause=clause, detail=detail, case=core.plain(case), features=feat))
+
+    db = load_documents(M.m_emit(md))
+    got = {dl.short_name: {"services": sorted(s.short_name for s in dl.services),
+                           "dops": sorted(d.short_name for d in dl.diag_data_dictionary_spec.data_object_props),
+                           "comparams": sorted(c.short_name for c in getattr(dl, "comparam_refs", []))}
+           for dl in db.diag_layers}
+    if got != {n: {k: sorted(v) for k, v in e.items()} for n, e in eff.items()}:
+        raise core.Inconclusive(f"model and odxtools disagree about what applies to the layers: model={eff} odxtools={got}")
+
+    import odxtools.cli._print_utils as PU
+    import odxtools.cli.list as L
+    nontrivial = False
+    all_tokens = {t: (n, k) for n, e in eff.items() for k, v in e.items() for t in v}
+    with _Patched() as px:
+        for oi, order in enumerate(orders):
+            onames = [names[i] for i in order]
+            if len(order) < len(names):
+                classes.add("metrics:order:subset")
+            elif order == list(range(len(names)))[::-1] and len(order) > 1:
+                classes.add("metrics:order:reversed")
+            elif order != list(range(len(names))):
+                classes.add("metrics:order:permuted")
+            for col in ("services", "dops", "comparams"):
+                seq = [counts[n][col] for n in onames]
+                for j, v in enumerate(seq):
+                    if v == 0 and any(seq[:j]):
+                        classes.add(f"metrics:zero-after-nonzero:{col}")
+                        nontrivial = True
+                    if v > 0 and j > 0 and seq[j - 1] == 0:
+                        classes.add(f"metrics:nonzero-after-zero:{col}")
+            how = "list" if oi % 2 else "compare"
+            classes.add(f"metrics:via:{how}")
+            try:
+                if how == "compare":
+                    PU.print_dl_metrics([db.diag_layers[n] for n in onames])
+                else:
+                    L.print_summary(db, variants=list(onames), print_services=True, print_dops=True, print_comparams=True)
+            except Exception as e:  # noqa: BLE001 - classified
+                fail("metrics-exception", f"layer overview ({how}, layers {onames}) raised {type(e).__name__}: {e}",
+                     bucket=f"metrics-exception:{type(e).__name__}")
+                px.take("utils"); px.take("rich"); px.take("all")
+                continue
+            tabs = [t for t in _tables(px.take("utils")) if len(t.columns) == 5]
+            px.take("rich")
+            text = px.take("all")
+            if len(tabs) != 1:
+                fail("metrics-rows", f"layer overview ({how}) printed {len(tabs)} tables", bucket="metrics-rows")
+                continue
+            rows = _rows(tabs[0])
+            if [r[0] for r in rows] != onames or any(len(r) < 5 for r in rows):
+                fail("metrics-rows", f"layer overview ({how}) has rows {[r[0] for r in rows]} for layers {onames}",
+                     bucket="metrics-rows")
+                continue
+            for j, r in enumerate(rows):
+                for col, key in ((2, "services"), (3, "dops"), (4, "comparams")):
+                    if str(r[col]).strip() != str(counts[r[0]][key]):
+                        fail(f"metrics-{key}", f"overview of {onames} ({how}): row {j} ({r[0]}) says {r[col]} {key}, the layer "
+                             f"has {counts[r[0]][key]} (rows above: {[x[col] for x in rows[:j]]})",
+                             bucket=f"metrics-{key}", observed=str(r[col]).strip(), expected=counts[r[0]][key], row=j)
+            if how == "list":
+                # per-layer listing: what is printed after a layer was named and before the next one is named
+                # must be exactly the services / DOPs / communication parameters applicable to that layer
+                cur = None
+                shown = {n: {"services": set(), "dops": set(), "comparams": set()} for n in onames}
+                for args in text:
+                    for a in args:
+                        if not isinstance(a, str):
+                            continue
+                        toks = re.findall(r"[A-Za-z0-9_]+", a)
+                        for t in toks:
+                            if t in shown:
+                                cur = t
+                        for t in toks:
+                            if cur is not None and (t in all_tokens or t.startswith("CP_")):
+                                kind = "comparams" if t.startswith("CP_") else all_tokens[t][1]
+                                shown[cur][kind].add(t)
+                for n in onames:
+                    for key in ("services", "dops", "comparams"):
+                        if shown[n][key] != set(eff[n][key]):
+                            fail(f"list-{key}", f"`list` of {onames}: the block of layer {n} shows {key} {sorted(shown[n][key])}, "
+                                 f"applicable are {sorted(eff[n][key])}", bucket=f"list-{key}")
+    return fails, classes, nontrivial or len(names) >= 2
+
+
 def replay(case) -> list:
+    case = core.unjson(case)
+    if case.get("src") == "metrics":
+        return evaluate_metrics(case)[0]
     fails, _c, _n = evaluate(case)
     return fails
 
@@ -616,6 +742,33 @@ def _strategies():
     return cases()
 
 
+def _metrics_strategy():
+    from hypothesis import strategies as st
+
+    @st.composite
+    def cases(draw):
+        nl = draw(st.integers(2, 6))
+        ncp = draw(st.integers(1, 4))
+        layers = []
+        for i in range(nl):
+            kind = draw(st.sampled_from(M.LAYER_KINDS))
+            cand = [j for j in range(i) if layers[j]["kind"] in M.ALLOWED_PARENTS[kind]]
+            parent = cand[draw(st.integers(0, len(cand) - 1))] if cand and draw(st.integers(0, 2)) == 0 else None
+            cps = [] if kind == "ECU-SHARED-DATA" or draw(st.booleans()) else \
+                [c for c in range(ncp) if draw(st.booleans())]
+            layers.append({"name": f"ML{i}", "kind": kind, "parent": parent,
+                           "n_services": draw(st.sampled_from([0, 0, 1, 2, 3])),
+                           "n_dops": draw(st.sampled_from([0, 0, 1, 2, 3])), "comparams": cps})
+        ident = list(range(nl))
+        orders = [ident, ident[::-1]]
+        for _ in range(draw(st.integers(1, 3))):
+            perm = draw(st.permutations(ident))
+            orders.append(list(perm)[:draw(st.integers(1, nl))])
+        return {"src": "metrics", "mdesc": {"n_comparams": ncp, "layers": layers}, "orders": orders}
+
+    return cases()
+
+
 def somersault_cases():
     return [{"src": "somersault", "edit": e, "detailed": (i % 2 == 0)}
             for i, e in enumerate(M.pdx_enumerate_edits(_base_pdx()))]
@@ -629,7 +782,8 @@ N_SOM = 8
 
 def shards(tier):
     nh = 8 if tier == "quick" else 16
-    return [("hyp", i) for i in range(nh)] + [("som", i) for i in range(N_SOM)]
+    return [("hyp", i) for i in range(nh)] + [("som", i) for i in range(N_SOM)] + \
+           [("met", i) for i in range(4 if tier == "quick" else 8)]
 
 
 def _filter_known(fails, kf, res):
@@ -661,6 +815,20 @@ def run_shard(spec, seed, tier):
             "(delete/rename of every unreferenced service, one added copy per service, semantic / byte position / "
             "coded value / data type / bit length / linked DOP of every CODED-CONST and VALUE parameter, in-place "
             "modification of every DOP that is only linked directly by VALUE parameters)")
+        return res
+
+    if spec[0] == "met":
+        n = 100 if tier == "quick" else 800
+
+        def mbody(case):
+            fails, classes, nontrivial = evaluate_metrics(case)
+            res.note(case, nontrivial, classes)
+            return _filter_known(fails, kf, res)
+
+        best = core.hyp_search(_metrics_strategy(), mbody, seed, n)
+        if best:
+            res.failures.extend(best)
+        res.stages["hypothesis"] = n
         return res
 
     n = 150 if tier == "quick" else 1500
